@@ -41,7 +41,7 @@ ASSUMPTIONS = [
     "operations that do not terminate on partial lists (reverse/2, nth0/3 enumeration, member/2 enumeration …) are generated for non-variable tails or wrapped in once/1",
 ]
 
-IMPL_ENV = {"SV_TIMEOUT_MS": "8000"}
+IMPL_ENV = {"SV_TIMEOUT_MS": "20000"}
 
 USE = ("use_module(library(iso_ext)),use_module(library(lists)),use_module(library(charsio)),"
        "use_module(library(format)),use_module(library(dcgs)),use_module(library(si)),use_module(library(error)).")
@@ -81,6 +81,19 @@ c20sw([_|T], R) :- c20sw(T, R).
 def transient(r):
     return (r == "missing" or r.startswith("timeout") or r.startswith("abort") or r.startswith("skipped")
             or "'$interrupt_thrown'" in r or "exception('/'('repl',0))" in r)
+
+
+ANS_RE = re.compile(r"^\{Ans=(.*?),S1=")
+
+
+def ans_part(r):
+    m = ANS_RE.match(r)
+    return "ans:" + m.group(1) if m else r
+
+
+def norm(r):
+    """variables that write_term_to_chars prints by address (`_123`) are made anonymous"""
+    return re.sub(r"(?<![A-Za-z0-9_])_[0-9]+", "_N", r)
 
 
 def lost_helper(r):
@@ -409,7 +422,6 @@ OPS = [
     ("number_chars_chk", "", "(number_chars(12, {S1}) -> {R} = y({T1}) ; {R} = n)"),
     ("atom_length", "", "atom_length({S1}, {R})"),
     ("char_code", "", "char_code({S1}, {R})"),
-    ("is", "", "{R} is {S1} + 0"),
     ("read_term", "proper", "read_term_from_chars({S1}, [], {R})"),
     # --- all-solutions, copies, database, exceptions
     ("findall", "", "findall({S1}-{T1}, member(_, [1,2]), {R})"),
@@ -484,6 +496,12 @@ def render_variant(item, vid, rec1, rec2, seed):
     """-> (extra consult lines, query text)"""
     import random
     rng = random.Random(seed)
+    if item["op"] == "ans":
+        # the library API's answer conversion (Term::from_heapcell): no findall around it
+        fr = Fresh(vid)
+        extra = []
+        g = build(rec1, item["cs1"], item["t1"], "S1", fr, rng, vid, extra)
+        return [e for e in extra if e], "%s, Ans = S1." % g
     name, flags, tpl = op_by_name(item["op"])
     fr = Fresh(vid)
     extra = []
@@ -513,16 +531,212 @@ def make_case(item, variants):
     return {"id": item["id"], "item": item, "variants": vs, "impl": lines}
 
 
+def gen_ans_item(rng):
+    cs = gen_chars(rng, rng.choice([1, 2, 3, 7, 8, 9]), nul_ok=True)
+    t = rng.choice(["[]", "[]", "T1", "foo", "7", "g(Zt)"])
+    return {"id": "", "op": "ans", "cs1": cs, "t1": t, "cs2": None, "t2": None}
+
+
 def gen_cases(rng, count, nvar, prefix="g"):
     cases = []
     for n in range(count):
-        item = gen_item(rng, n)
+        item = gen_ans_item(rng) if rng.random() < 0.04 else gen_item(rng, n)
         item["id"] = "%s%d" % (prefix, n)
         variants = [("%s_v0" % item["id"], REF, REF, rng.randrange(1 << 30))]
         for k in range(nvar):
             variants.append(("%s_v%d" % (item["id"], k + 1), pick_recipe(rng), pick_recipe(rng), rng.randrange(1 << 30)))
         cases.append(make_case(item, variants))
     return cases
+
+
+# ------------------------------------------------------------------ mechanism-level tie with the model
+# A representation is chosen FIRST (list of pieces), rendered both as Prolog text and as the token
+# encoding of drv_C20; the model's result (proved equal to the list operation on `denote`) is the
+# expected observation.
+
+MCHARS = list("abcxy01") + ["é", "è", "€", "ࠀ", "\U00010000", "\U0001F600", "ÿ"]
+
+
+def gen_rep(rng, cs, tail):
+    """pieces for the character list cs: ('L', c) | ('S', chars, k) ; tail token N / V<n> / O1"""
+    pieces = []
+    i = 0
+    while i < len(cs):
+        r = rng.random()
+        if r < 0.35:
+            pieces.append(("L", cs[i]))
+            i += 1
+        else:
+            n = rng.choice([1, 1, 2, 3, 5, 7, 8, 9, 16])
+            seg = cs[i:i + n]
+            k = rng.choice([0, 0, 0, 1, 2, 3, 7, 8]) if rng.random() < 0.5 else 0
+            junk = [rng.choice(MCHARS) for _ in range(k)]
+            pieces.append(("S", junk + seg, k))
+            i += len(seg)
+    return {"pieces": pieces, "tail": tail}
+
+
+def rep_tokens(rep):
+    out = []
+    for p in rep["pieces"]:
+        if p[0] == "L":
+            out.append("L%d" % ord(p[1]))
+        else:
+            out.append("S%d:%s" % (p[2], ".".join(str(ord(c)) for c in p[1])))
+    out.append(rep["tail"])
+    return " ".join(out)
+
+
+def tail_text(tok):
+    return {"N": "[]", "O1": "foo"}.get(tok, "T" + tok[1:])
+
+
+def rep_goal(rep, V, pfx):
+    """Prolog goal building exactly this representation in V"""
+    goals = []
+    cur = V
+    n = len(rep["pieces"])
+    for i, p in enumerate(rep["pieces"]):
+        nxt = tail_text(rep["tail"]) if i == n - 1 else "%sN%d" % (pfx, i)
+        if p[0] == "L":
+            h = "%sH%d" % (pfx, i)
+            goals.append("%s = [%s|%s], %s = (%s)" % (cur, h, nxt, h, atom_txt(p[1])))
+        else:
+            chars, k = p[1], p[2]
+            if k == 0:
+                goals.append("%s = %s" % (cur, lit_list(chars, nxt)))
+            else:
+                v0 = "%sP%d" % (pfx, i)
+                goals.append("%s = %s, %s = [%s|%s]" % (v0, lit_list(chars, nxt), v0, ",".join("_" for _ in range(k)), cur))
+        cur = nxt
+    if n == 0:
+        goals.append("%s = %s" % (V, tail_text(rep["tail"])))
+    return ", ".join(goals)
+
+
+def lis_text(codes, tail_tok, pfx):
+    """explicit Lis list text for codes with tail; returns (goal, var)"""
+    cs = [chr(int(x)) for x in codes.split(".")] if codes != "-" else []
+    v = pfx + "E"
+    if not cs:
+        return "%s = %s" % (v, tail_text(tail_tok)), v
+    hs = ["%sC%d" % (pfx, i) for i in range(len(cs))]
+    return "%s = [%s|%s], %s" % (v, ",".join(hs), tail_text(tail_tok),
+                                 ", ".join("%s = (%s)" % (h, atom_txt(c)) for h, c in zip(hs, cs))), v
+
+
+TAIL_ORDER = {"V": 0, "N": 1, "O": 2}
+
+
+def gen_mech(rng, n, prefix="m"):
+    items = []
+    for i in range(n):
+        kind = rng.choice(["UNI", "UNI", "CMP", "CMP", "DEC", "DEN", "SEG"])
+        cs1 = [rng.choice(MCHARS) for _ in range(rng.choice([0, 1, 2, 3, 5, 7, 8, 9, 15, 16, 17]))]
+        it = {"id": "%s%d" % (prefix, i), "kind": kind}
+        if kind == "SEG":
+            if not cs1:
+                cs1 = ["a"]
+            it["cell"] = rng.choice([0, 1, 2, 5])
+            it["cs"] = cs1
+            it["model"] = ["SEG\t%s\t%d\t%s" % (it["id"], it["cell"], ".".join(str(ord(c)) for c in cs1))]
+        else:
+            t1 = rng.choice(["N", "N", "V1", "V1", "O1"])
+            it["r1"] = gen_rep(rng, cs1, t1)
+            if kind in ("UNI", "CMP"):
+                cs2 = near(rng, cs1)
+                cs2 = [c if c != NUL and not ctrl(c) else "a" for c in cs2]
+                if kind == "CMP":
+                    t2 = rng.choice(["N", "O1", t1])
+                else:
+                    t2 = rng.choice(["N", "V2", "V2", "O1"])
+                it["r2"] = gen_rep(rng, cs2, t2)
+                it["model"] = ["%s\t%s\t%s\t%s" % (kind, it["id"], rep_tokens(it["r1"]), rep_tokens(it["r2"]))]
+            else:
+                it["model"] = ["%s\t%s\t%s" % (kind, it["id"], rep_tokens(it["r1"]))]
+        items.append(it)
+    return items
+
+
+def mech_query(it, m):
+    """the implementation line(s) for a mechanism item given the model's answer m; -> (line, expected)"""
+    k = it["kind"]
+    if k == "SEG":
+        hexs = "".join("%02x" % b for b in "".join(it["cs"]).encode())
+        line = "HS\t%s\t64\tpush %d;pstr %s;step 0;read 0" % (it["id"], it["cell"], hexs)
+        return line, None
+    g1 = rep_goal(it["r1"], "S1", "A")
+    if k == "UNI":
+        g2 = rep_goal(it["r2"], "S2", "B")
+        w = m.split()
+        if w[0] == "fail":
+            chk = "true"
+        elif len(w) == 1:
+            chk = "true"
+        else:
+            eg, ev = lis_text(w[2], w[3], "X")
+            chk = "%s, T%s == %s" % (eg, w[1], ev)
+        q = "findall(R, (%s, %s, (S1 = S2 -> (S1 == S2, %s -> R = ok ; R = wrong) ; R = n)), As)." % (g1, g2, chk)
+        return "Q\t%s\t2\t%s" % (it["id"], hesc(q)), ("{As=\"n\"}" if w[0] == "fail" else "{As=['ok']}")
+    if k == "CMP":
+        g2 = rep_goal(it["r2"], "S2", "B")
+        q = "findall(O, (%s, %s, compare(O, S1, S2)), As)." % (g1, g2)
+        w = m.split()
+        if w[0] == "lt":
+            e = "<"
+        elif w[0] == "gt":
+            e = ">"
+        elif w[0] == "endL":
+            e = "<"
+        elif w[0] == "endR":
+            e = ">"
+        else:
+            a, b = w[1], w[2]
+            e = "=" if a == b else ("<" if TAIL_ORDER[a[0]] < TAIL_ORDER[b[0]] else ">")
+        return "Q\t%s\t2\t%s" % (it["id"], hesc(q)), "{As=\"%s\"}" % e
+    if k == "DEC":
+        w = m.split()
+        if w[0] == "none":
+            q = "findall(R, (%s, (S1 = [_|_] -> R = wrong ; R = ok)), As)." % g1
+            if it["r1"]["tail"].startswith("V"):
+                return None, None
+        else:
+            eg, ev = lis_text(w[1], w[2], "X")
+            q = "findall(R, (%s, %s, (S1 = [H|T], H == (%s), T == %s -> R = ok ; R = wrong)), As)." % (
+                g1, eg, atom_txt(chr(int(w[0]))), ev)
+        return "Q\t%s\t2\t%s" % (it["id"], hesc(q)), "{As=['ok']}"
+    if k == "DEN":
+        w = m.split()
+        eg, ev = lis_text(w[0], w[1], "X")
+        q = "findall(R, (%s, %s, copy_term(S1, C), (S1 == %s, C = %s, %s == C -> R = ok ; R = wrong)), As)." % (g1, eg, ev, ev, ev)
+        return "Q\t%s\t2\t%s" % (it["id"], hesc(q)), "{As=['ok']}"
+    return None, None
+
+
+def seg_expected(it, m):
+    """HS result expected from the model's SEG answer"""
+    left = m.split("|")[0].split()
+    codes, tail = left[0], left[1]
+    hexs = "".join("%02x" % b for b in "".join(chr(int(x)) for x in codes.split(".")).encode())
+    return "P%d" % (8 * it["cell"]), "%s%s:end" % (hexs, tail)
+
+
+def classify(item, ref, r, v):
+    """stable signature of the defect class a difference belongs to (None = unclassified)"""
+    cs = item["cs1"] + (item["cs2"] or [])
+    if "not a char boundary" in r or "not a char boundary" in ref:
+        return "C20-2"
+    if item["op"] == "ans":
+        return "C20-1"
+    if item["op"] == "partial_string_tail":
+        return "C20-4"
+    if item["op"] == "write_depth":
+        return "C20-5"
+    if NUL in cs and item["op"] in ("assert_index", "retract"):
+        return "C20-3"
+    if "\x80" in cs and item["op"] in ("format", "format_s", "writeq", "write_dq", "write_canon"):
+        return "C20-6"
+    return None
 
 
 def rec_name(r):
@@ -545,16 +759,17 @@ def run(ctx):
     if rep is not None:
         cases = []
         for c in rep:
-            cases.append(make_case(c["item"], [(v["vid"], v["r1"], v["r2"], v["seed"]) for v in c["variants"]]))
+            if "item" in c:
+                cases.append(make_case(c["item"], [(v["vid"], v["r1"], v["r2"], v["seed"]) for v in c["variants"]]))
     else:
         cases = []
         for c in diff.load_corpus("C20"):
             if "item" in c:
                 cases.append(make_case(c["item"], [(v["vid"], v["r1"], v["r2"], v["seed"]) for v in c["variants"]]))
         if tier == "quick":
-            cases += gen_cases(rng, 1500, 4)
+            cases += gen_cases(rng, 1200, 4)
         else:
-            cases += gen_cases(rng, 16000, 6)
+            cases += gen_cases(rng, 6000, 6)
     t0 = time.time()
     impl, _ = diff.run_cases([{"id": c["id"], "impl": c["impl"]} for c in cases], impl_env=IMPL_ENV)
     # second pass: variants that lost their machine (a panic earlier in the case discards it), or hit
@@ -577,31 +792,37 @@ def run(ctx):
 
     findings, agree, total = [], 0, 0
     distinct = set()
-    per_op, per_rec, kinds = {}, {}, {}
+    per_op, per_rec, kinds, classes = {}, {}, {}, {}
     seen_sig = set()
     for c in cases:
         item = c["item"]
-        ref = impl.get(c["variants"][0]["vid"], "missing")
+        post = ans_part if item["op"] == "ans" else (lambda x: x)
+        ref = post(norm(impl.get(c["variants"][0]["vid"], "missing")))
         per_op[item["op"]] = per_op.get(item["op"], 0) + 1
         for k in has_kind(item):
             kinds[k] = kinds.get(k, 0) + 1
         for v in c["variants"][1:]:
             total += 1
-            r = impl.get(v["vid"], "missing")
+            r = post(norm(impl.get(v["vid"], "missing")))
             rn = rec_name(v["r1"]) + ("/" + rec_name(v["r2"]) if item["cs2"] is not None else "")
             per_rec[v["r1"]["k"]] = per_rec.get(v["r1"]["k"], 0) + 1
             if len(item["cs1"]) > 0:
                 distinct.add((item["op"], "".join(item["cs1"]), item["t1"], "".join(item["cs2"] or []), item["t2"], rn))
             if rep is not None:
                 print("replay %s\n  ref     = %s\n  variant = %s  [%s]\n  goal: %s" % (item["op"], ref, r, rn, v["q"]))
-            if r == ref and not transient(r):
+            if r == ref and not transient(r) and not r.startswith("panic"):
                 agree += 1
                 continue
             kind = "panic" if (r.startswith("panic") or ref.startswith("panic")) else \
                    "abort" if (r.startswith("abort") or ref.startswith("abort")) else "differ"
-            sig = {"op": item["op"], "kind": kind, "r1": v["r1"]["k"], "nul": str(NUL in (item["cs1"] + (item["cs2"] or [])))}
+            cls = classify(item, ref, r, v)
+            if cls:
+                classes[cls] = classes.get(cls, 0) + 1
+                sig = {"defect": cls}
+            else:
+                sig = {"op": item["op"], "kind": kind, "r1": v["r1"]["k"], "nul": str(NUL in (item["cs1"] + (item["cs2"] or [])))}
             key = json.dumps(sig, sort_keys=True)
-            if key in seen_sig and len(findings) > 60:
+            if key in seen_sig and (cls or len(findings) > 40):
                 continue
             seen_sig.add(key)
             one = {"id": c["id"], "item": item, "variants": [
@@ -612,10 +833,58 @@ def run(ctx):
                 "string and explicit list are distinguishable under %s: reference (list cells) gives %s, variant [%s] gives %s; goals: REF %s | VAR %s"
                 % (item["op"], ref[:300], rn, r[:300], c["variants"][0]["q"][:600], v["q"][:600]),
                 one))
+
+    # ---- mechanism-level tie with the model
+    if rep is None:
+        mitems = gen_mech(rng, 800 if tier == "quick" else 6000)
+    else:
+        mitems = [c["mech"] for c in rep if "mech" in c]
+        for c in diff.load_corpus("C20") if False else []:
+            pass
+    model = core.run_model([l for it in mitems for l in it["model"]], "C20") if mitems else {}
+    mcases, mexp = [], {}
+    for it in mitems:
+        m = model.get(it["id"], "missing")
+        line, e = mech_query(it, m)
+        if line:
+            mcases.append({"id": it["id"], "impl": ["Q\t%s_u\t1\t%s" % (it["id"], USE), line]})
+            mexp[it["id"]] = (it, m, e)
+    mres, _ = diff.run_cases(mcases, impl_env=IMPL_ENV) if mcases else ({}, {})
+    flaky = [k for k in mexp if transient(mres.get(k, "missing"))]
+    if flaky:
+        m2, _ = diff.run_cases([c for c in mcases if c["id"] in set(flaky)], impl_env=IMPL_ENV, parallel=False)
+        mres.update(m2)
+    mech_kinds, mech_out, mech_agree = {}, {}, 0
+    for k, (it, m, e) in mexp.items():
+        r = mres.get(k, "missing")
+        mech_kinds[it["kind"]] = mech_kinds.get(it["kind"], 0) + 1
+        mech_out[m.split()[0] if it["kind"] in ("UNI", "CMP") else it["kind"]] = mech_out.get(m.split()[0] if it["kind"] in ("UNI", "CMP") else it["kind"], 0) + 1
+        if it["kind"] == "SEG":
+            pc, tl = seg_expected(it, m)
+            ok = (("," + pc + " ") in r + " " or r.split(" ")[1].endswith(pc)) and r.count(tl) == 2
+        else:
+            ok = (r == e)
+        if rep is not None:
+            print("replay mech %s\n  model = %s\n  expected = %s\n  impl = %s" % (it["kind"], m, e, r))
+        total += 1
+        if ok:
+            mech_agree += 1
+            agree += 1
+            continue
+        sig = {"mech": it["kind"], "model": m.split()[0]}
+        key = json.dumps(sig, sort_keys=True)
+        if key in seen_sig:
+            continue
+        seen_sig.add(key)
+        findings.append(core.Finding(
+            "violation" if it["kind"] != "SEG" else "disagreement", sig,
+            "mechanism %s: model (= list operation on the denoted lists) says %s, expected observation %s, implementation gives %s; line: %s"
+            % (it["kind"], m, e, r[:300], [l for c in mcases if c["id"] == k for l in c["impl"]][-1][:900]),
+            {"id": k, "mech": it}))
     samples = [{"op": c["item"]["op"], "goal": c["variants"][1]["q"], "result": impl.get(c["variants"][1]["vid"])}
                for c in cases[:3] if len(c["variants"]) > 1]
     return {
-        "evaluations": sum(len(c["variants"]) for c in cases),
+        "evaluations": sum(len(c["variants"]) for c in cases) + len(mexp),
         "distinct_nontrivial": len(distinct),
         "rule": "item = (operation, char list(s) with length biased to 0-3,7-9,15-17,23-25,31-33 bytes/chars, ASCII / multi-byte / NUL / quoting-sensitive chars, tail nil/var/atom/int/compound; second list equal / one char changed (preferring a char with the same UTF-8 lead byte) / prefix / extension); distinct = distinct (operation, lists, tails, recipe combination); non-trivial = non-empty first list",
         "samples": samples,
@@ -624,6 +893,10 @@ def run(ctx):
         "retried": len(retry),
         "per_operation": per_op,
         "per_recipe": per_rec,
+        "mechanism_items": mech_kinds,
+        "mechanism_model_outcomes": mech_out,
+        "mechanism_agree": mech_agree,
+        "known_defect_class_instances": classes,
         "content_kinds": kinds,
         "findings": findings,
     }
